@@ -85,6 +85,7 @@ class Skeleton:
         self.ps = ParserShapes.__new__(ParserShapes)     # only for la_cond
         self.tokens = [n for n, _ in self.facts.enum('Theo::Token::Type')['enumerators']]
         self.ps.ALL = set(self.tokens)
+        self.ps.facts = self.facts
         self.ALL = frozenset(self.tokens)
         self.fns = {}
         for f in self.facts.functions_in('parse.cpp'):
@@ -95,10 +96,53 @@ class Skeleton:
         if self.match_fn is None:
             raise AnalysisBroken('ParseState::match not found (anchor vanished)')
         self.skel = {}
+        self._bind = {}
         for q, f in self.grammar_fns.items():
+            if any(self._is_enum_param(p) for p in f['params']):
+                continue              # specialised per call site (constant enumerator arguments)
             self._alias = {}
             self.skel[q] = self.stmt(f['body'], f)
         self.alternatives = 0
+
+    @staticmethod
+    def _is_enum_param(p):
+        c = (p.get('cty') or '').replace('const ', '')
+        return c.endswith('::Type') and '&' not in c and '*' not in c
+
+    def skeleton(self, key):
+        """key: function name, or (function name, ((param decl, enumerator), ...)) for a specialisation"""
+        if key not in self.skel:
+            q, binding = key
+            saved_alias, saved_bind = getattr(self, '_alias', {}), self._bind
+            self._alias, self._bind = {}, dict(binding)
+            try:
+                self.skel[key] = self.stmt(self.grammar_fns[q]['body'], self.grammar_fns[q])
+            finally:
+                self._alias, self._bind = saved_alias, saved_bind
+        return self.skel[key]
+
+    def const_cond(self, c):
+        """truth of a condition over enumerator parameters bound by the specialisation, None when it is something else"""
+        c = strip_casts(c)
+        if c is None:
+            return None
+        k = c.get('k')
+        if k == 'paren':
+            return self.const_cond(c['e'])
+        if k == 'un' and c['op'] == '!':
+            v = self.const_cond(c['e'])
+            return None if v is None else not v
+        if k == 'bin' and c['op'] in ('&&', '||'):
+            a, b = self.const_cond(c['l']), self.const_cond(c['r'])
+            if c['op'] == '&&':
+                return False if (a is False or b is False) else (True if (a and b) else None)
+            return True if (a or b) else (False if (a is False and b is False) else None)
+        if k == 'bin' and c['op'] in ('==', '!='):
+            l, r = strip_casts(c['l']), strip_casts(c['r'])
+            for a, b in ((l, r), (r, l)):
+                if a.get('k') == 'ref' and a.get('d') in self._bind and b.get('k') == 'ref' and b.get('dk') == 'enumerator':
+                    return (self._bind[a['d']] == b['name']) == (c['op'] == '==')
+        return None
 
     # events of one expression, in evaluation order
     def events(self, e, f, out):
@@ -124,12 +168,29 @@ class Skeleton:
                 t = strip_casts(e['args'][0])
                 if t.get('k') == 'ref' and t.get('dk') == 'enumerator':
                     out.append(('match', t['name']))
+                elif t.get('k') == 'ref' and t.get('d') in self._bind:
+                    out.append(('match', self._bind[t['d']]))
                 elif callee == 'ParseState::match' and (t.get('callee') or '').endswith('::lookahead'):
                     out.append(('advance',))
                 else:
                     raise AnalysisBroken('parse.cpp: match() with a non-constant token in %s: %s' % (f['q'], show(e)))
             elif callee in self.grammar_fns:
-                out.append(('call', callee))
+                gfn = self.grammar_fns[callee]
+                if any(self._is_enum_param(p) for p in gfn['params']):
+                    binding = []
+                    for p, a in zip(gfn['params'], e['args']):
+                        if not self._is_enum_param(p):
+                            continue
+                        a = strip_casts(a)
+                        if a.get('k') == 'ref' and a.get('dk') == 'enumerator':
+                            binding.append((p['d'], a['name']))
+                        elif a.get('k') == 'ref' and a.get('d') in self._bind:
+                            binding.append((p['d'], self._bind[a['d']]))
+                        else:
+                            raise AnalysisBroken('parse.cpp: %s is called with a non-constant kind argument in %s: %s' % (callee, f['q'], show(e)))
+                    out.append(('call', (callee, tuple(binding))))
+                else:
+                    out.append(('call', callee))
             elif callee.endswith('::push_back') and e.get('obj') is not None and member_path(strip_casts(e['obj']))[1][-1:] == ['errors']:
                 out.append(('error',))
 
@@ -266,23 +327,37 @@ class Skeleton:
         if k == 'continue':
             return ('continue',)
         if k == 'if':
+            cv = self.const_cond(s['c']) if self._bind else None
+            if cv is not None:
+                return self.stmt(s['t'] if cv else s.get('e'), f)
             lc = self.lacond(s['c'])
             pre = []
             self.events(s['c'], f, pre)
             pre = [x for x in pre if x[0] != 'lookahead']
             nt = self.nulltest(s['c']) if lc is None else None
+            saved_alias = dict(getattr(self, '_alias', {}))
+
+            def arms():
+                # the two arms are alternatives: both start with the look-ahead aliases valid at the test
+                self._alias = dict(saved_alias)
+                a_ = self.stmt(s['t'], f)
+                self._alias = dict(saved_alias)
+                b_ = self.stmt(s.get('e'), f)
+                self._alias = dict(saved_alias) if not (self.has_grammar_action(a_) or self.has_grammar_action(b_)) else {}
+                return a_, b_
             if nt is not None:
-                a, b = self.stmt(s['t'], f), self.stmt(s.get('e'), f)
+                a, b = arms()
                 return ('seq', pre + [('ifnull', nt[0], a, b) if nt[1] else ('ifnull', nt[0], b, a)])
             if lc is None:
                 # conditions that are not about the look-ahead must not guard grammar actions
-                inner = self.stmt(s['t'], f), self.stmt(s.get('e'), f)
+                inner = arms()
                 if self.has_flow(inner[0]) or self.has_flow(inner[1]):
                     raise AnalysisBroken('parse.cpp: %s branches on %s around control flow (neither a look-ahead test nor a NULL test of a result)' % (f['q'], show(s['c'])))
                 if self.has_grammar_action(inner[0]) or self.has_grammar_action(inner[1]):
                     raise AnalysisBroken('parse.cpp: %s branches on %s around grammar actions (not a look-ahead test)' % (f['q'], show(s['c'])))
                 return ('seq', pre)
-            return ('seq', pre + [('if', frozenset(lc[0]), frozenset(lc[1]), self.stmt(s['t'], f), self.stmt(s.get('e'), f))])
+            a, b = arms()
+            return ('seq', pre + [('if', frozenset(lc[0]), frozenset(lc[1]), a, b)])
         if k == 'switch':
             c = strip_casts(self.subst_alias(s['c']))
             if not (c.get('k') == 'call' and (c.get('callee') or '').endswith('::lookahead')):
@@ -355,7 +430,7 @@ class Skeleton:
             return self.memo[key]
         self.memo[key] = set()        # recursion without consumption yields nothing new
         res = set()
-        for toks, pend, flow, env in self.run(self.skel[q], budget, pending, frozenset()):
+        for toks, pend, flow, env in self.run(self.skel[q] if q in self.skel else self.skeleton(q), budget, pending, frozenset()):
             res.add((toks, pend, dict(env).get('ret', 'U') if flow == 'return' else 'U'))
         self.memo[key] = res
         return res
